@@ -468,6 +468,16 @@ pub fn run(tier: Tier, seed: u64) -> i32 {
                         return acc;
                     }
                 }
+                // the last filler's detached search thread may still print a line: wait until it
+                // is gone and use isready as the boundary, so that nothing of it lands in the probe
+                let t_end = std::time::Instant::now() + Duration::from_secs(3);
+                while s.eng.thread_count() > 1 && std::time::Instant::now() < t_end {
+                    s.eng.drain(Duration::from_micros(300));
+                }
+                if !s.isready(WATCHDOG) {
+                    acc.inconclusive.push("long session: no readyok before the probe".into());
+                    return acc;
+                }
                 let answered = s.eng.transcript[mark..].iter().filter(|e| e.dir == Dir::Out && e.line.starts_with("bestmove")).count();
                 if answered != n {
                     acc.inconclusive.push(format!("long session: {} answers for {} filler searches", answered, n));
